@@ -702,16 +702,13 @@ Proof.
   intros f g c has n. induction rbs as [|b rbs IH]; intros pending Hag Hin Hnt; [reflexivity|].
   assert (Hag' : forall m, In (Star m) rbs -> star_agrees f g has n m).
   { intros m H. apply Hag. right. exact H. }
-  assert (Hskip : forall b', t_binds b' n = false ->
-                             In n (filter (fun n0 => negb (t_binds b' n0)) pending)).
-  { intros b' Hb. apply filter_In. split; [exact Hin|]. rewrite Hb. reflexivity. }
   destruct b as [x|x|m' x a|m'|m' a d]; cbn [expand_rev].
   - cbn [scan] in *. destruct (x =? n) eqn:E; [reflexivity|].
-    apply IH; [exact Hag'| |exact Hnt]. apply Hskip. unfold t_binds. cbn [t_match]. exact E.
+    apply IH; [exact Hag'|exact Hin|exact Hnt].
   - cbn [scan] in *. destruct (x =? n) eqn:E; [reflexivity|].
-    apply IH; [exact Hag'| |exact Hnt]. apply Hskip. unfold t_binds. cbn [t_match]. exact E.
+    apply IH; [exact Hag'|exact Hin|exact Hnt].
   - cbn [scan] in *. destruct (a =? n) eqn:E; [reflexivity|].
-    apply IH; [exact Hag'| |exact Hnt]. apply Hskip. unfold t_binds. cbn [t_match]. exact E.
+    apply IH; [exact Hag'|exact Hin|exact Hnt].
   - rewrite <- map_rev, scan_from_block.
     specialize (Hag m' (or_introl eq_refl)). unfold star_agrees, py_has in Hag.
     cbn [scan] in Hnt |- *.
@@ -734,8 +731,7 @@ Proof.
       * apply IH; assumption.
       * exfalso. apply Hnt. reflexivity.
   - cbn [scan] in *. destruct (a =? n) eqn:E; [reflexivity|].
-    apply IH; [exact Hag'| |exact Hnt]. apply Hskip. unfold t_binds. cbn [t_match]. rewrite E.
-    apply andb_false_r.
+    apply IH; [exact Hag'|exact Hin|exact Hnt].
 Qed.
 
 (* ---- lifting to the graph: the client is not imported by anybody *)
